@@ -269,6 +269,10 @@ struct HostWire {
     data_pkts: u64,
     rtx: u64,
     zero_window_seen: bool,
+    /// latest instant at which some outstanding chunk of this host was old enough for its T3 to have fired: rustrtc's
+    /// T3 handler credits EVERY outstanding chunk (flight counter reset), also the young ones - a chunk first sent
+    /// before this instant may have been credited even if the old chunk has been acknowledged since
+    t3_possible_at: f64,
 }
 
 pub struct WireState {
@@ -295,6 +299,20 @@ impl WireOracle for SctpWireOracle {
             return;
         }
         let now = sh.now_ms();
+        if std::env::var("VERIF_DUMP_SCTP").is_ok() {
+            // debugging aid (never set by a check): chunk contents as the sender put them on the wire
+            for c in pkt.chunks.iter() {
+                let v = &c.value;
+                let u = |o: usize| if v.len() >= o + 4 { u32::from_be_bytes([v[o], v[o + 1], v[o + 2], v[o + 3]]) } else { 0 };
+                let d = match c.ty {
+                    0 => format!("DATA tsn={} sid={} ssn={} flags={:02x} len={}", u(0), u(4) >> 16, u(4) & 0xffff, c.flags, v.len().saturating_sub(12)),
+                    3 => format!("SACK cum={} arwnd={} ngap={} ndup={} gaps={:?}", u(0), u(4), u(8) >> 16, u(8) & 0xffff, (0..(u(8) >> 16) as usize).map(|i| (u(12 + 4 * i) >> 16, u(12 + 4 * i) & 0xffff)).collect::<Vec<_>>()),
+                    192 => format!("FWD new_cum={} pairs={:?}", u(0), (0..v.len().saturating_sub(4) / 4).map(|i| (u(4 + 4 * i) >> 16, u(4 + 4 * i) & 0xffff)).collect::<Vec<_>>()),
+                    t => format!("chunk type {t}"),
+                };
+                sh.event(&format!("dump {from}"), &d);
+            }
+        }
         if pkt.len > 1200 {
             sh.violate("C13.size", format!("{from} emitted an SCTP packet of {} bytes (> 1200)", pkt.len));
         }
@@ -333,7 +351,9 @@ impl WireOracle for SctpWireOracle {
             }
         }
         let quiet_from = ws.quiet_from;
-        let rto_min = ws.rto_min_ms;
+        // (the transport stamps a chunk when it queues it for sending, a little before the monitor sees the datagram, and its
+        // timer has its own granularity: a T3 can fire when the monitor's clock says the chunk is up to 10 ms short of rto_min)
+        let rto_min = (ws.rto_min_ms - 10.0).max(1.0);
         let pr_streams = ws.pr_streams.clone();
         let lat = if from == "A" { ws.latency_ms[0] } else { ws.latency_ms[1] };
         let hw = ws.hosts.entry(from.to_string()).or_default();
@@ -371,12 +391,18 @@ impl WireOracle for SctpWireOracle {
                             // a T3 expiry marks *every* outstanding chunk for retransmission (and credits the window),
                             // so the rule is only evaluated while no outstanding chunk is old enough for T3 to have fired
                             let t3_possible = hw.outstanding.values().any(|(_, first)| now - *first >= rto_min);
+                            if t3_possible {
+                                hw.t3_possible_at = now;
+                            }
+                            let t3_mark = hw.t3_possible_at;
                             let strict: usize = hw
                                 .outstanding
                                 .iter()
                                 .filter(|(k, (_, first))| {
                                     let age = now - *first;
-                                    age < rto_min && (hw.delivered.contains(*k) || age <= lat + 0.5) && mga.map(|g| sgt(**k, g)).unwrap_or(true)
+                                    // (and it was first sent after the last instant at which a T3 - which credits every
+                                    // outstanding chunk, young ones included - could have fired)
+                                    age < rto_min && *first > t3_mark && (hw.delivered.contains(*k) || age <= lat + 0.5) && mga.map(|g| sgt(**k, g)).unwrap_or(true)
                                 })
                                 .map(|(_, (b, _))| *b)
                                 .sum();
@@ -442,6 +468,7 @@ impl WireOracle for SctpWireOracle {
                 let cum = u32::from_be_bytes([c.value[0], c.value[1], c.value[2], c.value[3]]);
                 let arwnd = u32::from_be_bytes([c.value[4], c.value[5], c.value[6], c.value[7]]);
                 let ngap = u16::from_be_bytes([c.value[8], c.value[9]]) as usize;
+                let ws_rto_min = (ws.rto_min_ms - 10.0).max(1.0);
                 let hw = ws.hosts.entry(to.to_string()).or_default();
                 // ignore SACKs that do not refer to this host's TSN space at all (stale association)
                 let plausible = match (hw.init_tsn, hw.hi) {
@@ -470,6 +497,10 @@ impl WireOracle for SctpWireOracle {
                     hw.last_arwnd_cum = Some(cum);
                     if arwnd == 0 {
                         sh.stat("probe.zero_window_sack", 1);
+                    }
+                    // (before the acknowledged chunks leave the books: was one of them old enough for T3?)
+                    if hw.outstanding.values().any(|(_, first)| now - *first >= ws_rto_min) {
+                        hw.t3_possible_at = now;
                     }
                     let keys: Vec<u32> = hw.outstanding.keys().copied().collect();
                     for k in keys {
